@@ -56,6 +56,41 @@ def run(ck):
     ck.ob("C09-R1", "premise:RouterHandler::router-shared", bool(rf) and "shared_ptr" in rf[0]["type"], "%s:%s" % (rh["file"], rf[0]["line"] if rf else 0), "",
           "router is held by %s: worker clones share one Router" % (rf[0]["type"] if rf else "?"), nontrivial=False)
 
+    # ---------------- R5: the serving path writes no process-wide state ----------------
+    ck.rule("C09-R5", "F effect check from entry (globals / static locals)",
+            "no function reachable from Http::Handler::onInput or Tcp::Transport::onReady — the code every worker thread runs per event — "
+            "assigns or mutates a namespace-scope variable or a static data member; the only mutable static local on that path is the header "
+            "Registry singleton, whose mutator (registerHeader) is not reachable from it", 2)
+    sroots = prog.find("Pistache::Http::Handler::onInput", 1) + prog.find(T + "onReady", 1)
+    sreach = lib.callgraph_reach(prog, sroots)
+    gw = []
+    statics = []
+    for fid, (f2, chain) in sreach.items():
+        for e in f2.events():
+            g_ = None
+            if e["k"] == "assign":
+                g_ = e["lhs"].get("g")
+            elif e["k"] == "incdec":
+                g_ = (e.get("operand") or {}).get("g")
+            elif e["k"] == "call":
+                rv = e.get("recv") or {}
+                if rv.get("g") and lib.is_stl_mutation(e):
+                    g_ = rv["g"]
+            if g_:
+                gw.append((f2, e, g_, chain))
+        for d_ in f2.events("decl"):
+            if d_.get("static") and "const" not in (d_.get("type") or ""):
+                statics.append((f2, d_))
+    ck.ob("C09-R5", "serving-path/no-global-writes", not gw, gw[0][1].loc if gw else sroots[0].loc, gw[0][0] if gw else sroots[0],
+          "%d functions reachable, none writes a global" % len(sreach) if not gw else
+          "%s writes the process-wide variable %s while serving: every worker thread runs this code concurrently" % (gw[0][0].name, gw[0][2]), path=gw[0][3] if gw else None)
+    allowed_static = {"Pistache::Http::Header::Registry::instance"}
+    odd = [(f2, d_) for f2, d_ in statics if f2.base not in allowed_static]
+    reg_reach = [f2 for f2, _c in sreach.values() if f2.base.endswith("Registry::registerHeader")]
+    ck.ob("C09-R5", "serving-path/static-locals", not odd and not reg_reach, odd[0][1].loc if odd else sroots[0].loc, odd[0][0] if odd else sroots[0],
+          "only the Registry singleton; registerHeader is not reachable while serving" if not odd and not reg_reach else
+          ("mutable static local `%s` in %s is shared by all workers" % (odd[0][1]["var"], odd[0][0].name) if odd else "Registry::registerHeader is reachable from the serving path"))
+
     # ---------------- R2 ----------------
     S = "Pistache::Aio::SyncImpl::"
     f = lib.single(prog, S + "shutdown")
